@@ -50,6 +50,7 @@ type Term struct {
 	Args []*Term
 	S    Sort
 	str  string
+	dep  int32 // nesting depth (0 for leaves), maintained by mk
 	// binders for quantifiers
 	Bound []*Term // bound variable symbols (Op=name,S=sort) for forall/exists
 	Pats  [][]*Term
@@ -109,7 +110,15 @@ func (t *Term) write(b *strings.Builder) {
 	b.WriteString(")")
 }
 
-func mk(op string, s Sort, args ...*Term) *Term { return &Term{Op: op, Args: args, S: s} }
+func mk(op string, s Sort, args ...*Term) *Term {
+	var d int32
+	for _, a := range args {
+		if a != nil && a.dep > d {
+			d = a.dep
+		}
+	}
+	return &Term{Op: op, Args: args, S: s, dep: d + 1}
+}
 
 var (
 	tTrue  = &Term{Op: "true", S: SBool}
